@@ -308,6 +308,16 @@ func (c *Client) monitor(ctx context.Context) {
 	defer c.mcancel()
 	defer c.setState(ctx, Closed)
 
+	// report hands a state change of the reconnect logic to the client.
+	// Close cancels ctx before it reports Closed: from then on the only
+	// state this goroutine may still report is the deferred Closed.
+	report := func(s ConnState) {
+		if ctx.Err() != nil {
+			return
+		}
+		c.setState(ctx, s)
+	}
+
 	action := none
 	for {
 		select {
@@ -330,7 +340,7 @@ func (c *Client) monitor(ctx context.Context) {
 			}
 
 			// tell the handler the connection is disconnected
-			c.setState(ctx, Disconnected)
+			report(Disconnected)
 			verifPoint("monitor.error", err)
 			dlog.Print("disconnected")
 
@@ -413,7 +423,7 @@ func (c *Client) monitor(ctx context.Context) {
 							c.setSecureChannel(nil)
 						}
 
-						c.setState(ctx, Reconnecting)
+						report(Reconnecting)
 
 						dlog.Printf("trying to recreate secure channel")
 						for {
@@ -438,7 +448,7 @@ func (c *Client) monitor(ctx context.Context) {
 						// This only works if the session is still open on the server
 						// otherwise recreate it
 
-						c.setState(ctx, Reconnecting)
+						report(Reconnecting)
 
 						s := c.Session()
 						if s == nil {
@@ -473,7 +483,7 @@ func (c *Client) monitor(ctx context.Context) {
 					case recreateSession:
 						dlog.Printf("action: recreateSession")
 
-						c.setState(ctx, Reconnecting)
+						report(Reconnecting)
 						// create a new session to replace the previous one
 
 						// clear any previous session as we know the server has closed it
@@ -578,7 +588,7 @@ func (c *Client) monitor(ctx context.Context) {
 							activeSubs++
 						}
 
-						c.setState(ctx, Connected)
+						report(Connected)
 						action = none
 
 					case abortReconnect:
@@ -654,11 +664,13 @@ func (c *Client) Close(ctx context.Context) error {
 	// try to close the session but ignore any error
 	// so that we close the underlying channel and connection.
 	c.CloseSession(ctx)
-	c.setState(ctx, Closed)
 
+	// stop the monitor before reporting Closed so that it cannot
+	// report another state afterwards
 	if c.mcancel != nil {
 		c.mcancel()
 	}
+	c.setState(ctx, Closed)
 	if sc := c.SecureChannel(); sc != nil {
 		sc.Close()
 		c.setSecureChannel(nil)
